@@ -49,7 +49,8 @@ Section Safety.
     map (answer n) (syncs (yc_issued c)) = yc_results c ++ inflight answer s n /\
     (yc_failed c = false -> length (inflight answer s n) = (if yc_wait c then 1 else 0)%nat) /\
     yc_issued c ++ yc_prog c = progs n /\
-    (yc_failed c = true -> y_dead s = true /\ yc_wait c = false).
+    (yc_failed c = true -> y_dead s = true /\ yc_wait c = false) /\
+    projc n (y_seen s) ++ projc n (y_outwire s) ++ projc n (y_outbuf s) ++ yc_mail c = yc_issued c.
 
   Definition YInv (s : sys) : Prop := y_fail s = false /\ forall n, chan_inv s n.
 
@@ -65,7 +66,7 @@ Section Safety.
   Ltac normlen := rewrite ?app_length, ?map_length in *.
   Ltac fields := cbn [yc_issued yc_results yc_replyq yc_pend yc_mail yc_wait yc_prog yc_failed].
   Ltac open m H := intro m; specialize (H m); unfold chan_inv, inflight in *;
-                   cbn [with_ch y_ch y_inwire y_outwire y_outbuf y_dead].
+                   cbn [with_ch y_ch y_inwire y_outwire y_outbuf y_dead y_seen].
 
   Lemma YInv_step s a : YInv s -> YInv (ystep answer bound qcap s a).
   Proof.
@@ -78,53 +79,56 @@ Section Safety.
       destruct (y_dead s) eqn:Hd.
       + (* the send fails *)
         split; [exact Hf|]. open m H. chan_cases m n; [|exact H]. fields.
-        destruct H as (H1 & H2 & H3 & H4). rewrite Hp in H3.
-        split; [exact H1|]. split; [discriminate|]. split; [exact H3|]. intros _. split; [exact Hd|reflexivity].
+        destruct H as (H1 & H2 & H3 & H4 & H5). rewrite Hp in H3.
+        split; [exact H1|]. split; [discriminate|]. split; [exact H3|]. split; [intros _; split; [exact Hd|reflexivity]|exact H5].
       + destruct (_ <? bound); [|split; assumption].
         split; [exact Hf|]. open m H. chan_cases m n; [|exact H]. fields.
-        rewrite Hw, Hp, Hfl in H. destruct H as (H1 & H2 & H3 & H4). specialize (H2 eq_refl). norm.
-        split; [|split; [|split]].
+        rewrite Hw, Hp, Hfl in H. destruct H as (H1 & H2 & H3 & H4 & H5). specialize (H2 eq_refl). norm.
+        split; [|split; [|split; [|split]]].
         * rewrite H1. rewrite <- ?app_assoc. reflexivity.
         * intros _. normlen. destruct (is_sync x); cbn [length map]; lia.
         * exact H3.
         * discriminate.
+        * rewrite <- H5. rewrite <- ?app_assoc. reflexivity.
     - (* ARecv *)
       destruct (yc_wait (y_ch s n)) eqn:Hw; [|split; assumption].
       destruct (yc_replyq (y_ch s n)) as [|v rest] eqn:Hr.
       + destruct (y_dead s) eqn:Hd; [|split; assumption].
         split; [exact Hf|]. open m H. chan_cases m n; [|exact H]. fields.
-        rewrite Hr in H. destruct H as (H1 & H2 & H3 & H4).
-        split; [exact H1|]. split; [discriminate|]. split; [exact H3|]. intros _. split; [exact Hd|reflexivity].
+        rewrite Hr in H. destruct H as (H1 & H2 & H3 & H4 & H5).
+        split; [exact H1|]. split; [discriminate|]. split; [exact H3|]. split; [intros _; split; [exact Hd|reflexivity]|exact H5].
       + split; [exact Hf|]. open m H. chan_cases m n; [|exact H]. fields.
-        rewrite Hw, Hr in H. destruct H as (H1 & H2 & H3 & H4). norm.
-        split; [|split; [|split]].
+        rewrite Hw, Hr in H. destruct H as (H1 & H2 & H3 & H4 & H5). norm.
+        split; [|split; [|split; [|split]]].
         * rewrite H1. rewrite <- ?app_assoc. reflexivity.
         * intro E. specialize (H2 E). cbn [app length] in H2. lia.
         * exact H3.
         * intro E. destruct (H4 E). discriminate.
+        * exact H5.
     - (* ADrain *)
       destruct (y_dead s) eqn:Hd; [split; assumption|].
       split; [reflexivity|]. open m H. rewrite Hd in *.
       chan_cases m n.
       + fields.
-        rewrite <- (firstn_skipn k (yc_mail (y_ch s n))) in H at 1 2. norm.
+        rewrite <- (firstn_skipn k (yc_mail (y_ch s n))) in H at 1 2 3. norm.
         rewrite projc_map_same. norm. exact H.
       + rewrite projc_app, (projc_map_other _ Hmn). norm. exact H.
     - (* AWrite *)
       destruct (y_dead s) eqn:Hd; [split; assumption|].
       split; [reflexivity|]. open m H. rewrite Hd in *.
-      rewrite <- (firstn_skipn k (y_outbuf s)) in H at 1 2. norm. exact H.
+      rewrite <- (firstn_skipn k (y_outbuf s)) in H at 1 2 3. norm. exact H.
     - (* ASrvRead *)
       destruct (y_outwire s) as [|[n x] rest] eqn:Ho; [split; assumption|].
       split; [reflexivity|]. open m H.
       rewrite Ho, projc_cons in H.
+      rewrite (projc_app m (y_seen s)), (projc_cons n m x []). change (projc m (@nil (N * call))) with (@nil call).
       destruct (is_sync x) eqn:Hs.
       + chan_cases m n.
         * fields.
-          rewrite N.eqb_refl in H. norm. rewrite Hs in H. cbn [map app] in *. exact H.
-        * destruct (n =? m) eqn:E; [apply N.eqb_eq in E; congruence|]. exact H.
-      + destruct (n =? m) eqn:E; [|exact H].
-        norm. rewrite Hs in H. cbn [map app] in H. exact H.
+          rewrite N.eqb_refl in *. norm. rewrite Hs in H. cbn [map app] in *. exact H.
+        * destruct (n =? m) eqn:E; [apply N.eqb_eq in E; congruence|]. norm. exact H.
+      + destruct (n =? m) eqn:E; [|norm; exact H].
+        norm. rewrite Hs in H. cbn [map app] in *. exact H.
     - (* ASrvAnswer *)
       destruct (yc_pend (y_ch s n)) as [|r rest] eqn:Hp; [split; assumption|].
       split; [reflexivity|]. open m H.
@@ -137,7 +141,7 @@ Section Safety.
       destruct (y_dead s) eqn:Hd; [split; assumption|].
       destruct (y_inwire s) as [|[n v] rest] eqn:Hi; [split; assumption|].
       assert (Hroom : N.of_nat (length (yc_replyq (y_ch s n))) <? qcap = true).
-      { pose proof (H n) as (_ & H2 & _ & H4). unfold inflight in H2. rewrite Hi in H2.
+      { pose proof (H n) as (_ & H2 & _ & H4 & _). unfold inflight in H2. rewrite Hi in H2.
         rewrite projc_cons, N.eqb_refl in H2.
         destruct (yc_failed (y_ch s n)) eqn:Hfl; [destruct (H4 eq_refl); congruence|].
         specialize (H2 eq_refl).
@@ -151,8 +155,8 @@ Section Safety.
         rewrite N.eqb_refl in H. norm. cbn [app] in *. exact H.
       + destruct (n =? m) eqn:E; [apply N.eqb_eq in E; congruence|]. exact H.
     - (* ADie *)
-      split; [reflexivity|]. open m H. destruct H as (H1 & H2 & H3 & H4).
-      split; [exact H1|]. split; [exact H2|]. split; [exact H3|]. intro E. split; [reflexivity|]. apply H4. exact E.
+      split; [reflexivity|]. open m H. destruct H as (H1 & H2 & H3 & H4 & H5).
+      split; [exact H1|]. split; [exact H2|]. split; [exact H3|]. split; [|exact H5]. intro E. split; [reflexivity|]. apply H4. exact E.
   Qed.
 
   Lemma YInv_run sched : forall s, YInv s -> YInv (yrun answer bound qcap s sched).
@@ -177,7 +181,7 @@ Section Safety.
       (yc_failed c = true -> y_dead s = true).
   Proof.
     cbn zeta. pose proof (YInv_run sched YInv_init) as [Hf H]. split; [exact Hf|].
-    intro n. destruct (H n) as (H1 & H2 & H3 & H4).
+    intro n. destruct (H n) as (H1 & H2 & H3 & H4 & H5).
     set (s := yrun answer bound qcap (init_sys progs) sched) in *.
     set (c := y_ch s n) in *.
     assert (Hpre : yc_results c = map (answer n) (firstn (length (yc_results c)) (syncs (yc_issued c)))).
@@ -204,6 +208,21 @@ Section Safety.
     - intro E. apply H4. exact E.
   Qed.
 
+  (* C01 AT THE LEVEL OF THE SYSTEM: what the server has read of channel n, followed by what is
+     still on its way (on the wire, in the out-buffer, in the mailbox), is exactly what caller n
+     issued, in order - no frame of a channel is lost, duplicated or overtaken by another frame
+     of the same channel, however the channels' frames interleave, whatever prefix each drain or
+     write takes; and what was issued is a prefix of the caller's program *)
+  Theorem sys_wire_order sched n :
+    let s := yrun answer bound qcap (init_sys progs) sched in
+    projc n (y_seen s) ++ projc n (y_outwire s) ++ projc n (y_outbuf s) ++ yc_mail (y_ch s n)
+      = yc_issued (y_ch s n) /\
+    yc_issued (y_ch s n) ++ yc_prog (y_ch s n) = progs n.
+  Proof.
+    cbn zeta. pose proof (YInv_run sched YInv_init) as [_ H].
+    destruct (H n) as (_ & _ & H3 & _ & H5). split; assumption.
+  Qed.
+
   (* the reply queue never holds more than one item: the capacity the code gives it (2) is
      never reached, the I/O thread's send never finds it full *)
   Theorem sys_reply_queue_never_full sched :
@@ -219,7 +238,7 @@ Section Safety.
     yc_replyq (y_ch s n) <> [] \/ y_inwire s <> [] \/ yc_pend (y_ch s n) <> [] \/
     y_outwire s <> [] \/ y_outbuf s <> [] \/ yc_mail (y_ch s n) <> [].
   Proof.
-    cbn zeta. intro Hw. pose proof (YInv_run sched YInv_init) as [_ H]. destruct (H n) as (_ & H2 & _ & H4).
+    cbn zeta. intro Hw. pose proof (YInv_run sched YInv_init) as [_ H]. destruct (H n) as (_ & H2 & _ & H4 & _).
     set (s := yrun answer bound qcap (init_sys progs) sched) in *.
     assert (Hfl : yc_failed (y_ch s n) = false).
     { destruct (yc_failed (y_ch s n)) eqn:E; [|reflexivity]. destruct (H4 eq_refl). congruence. }
